@@ -33,6 +33,6 @@ def setup(J):
         for comp, lens in (("filecombinator", "1,2"), ("paramcombinator", "2,1"), ("filecombinator", "1,1,1")):
             jobs.append(J.with_delay_fallback({"id": f"C12-{comp}-l{lens.replace(',', '')}", "prop": "C12", "kind": "comp", "mode": "dpor", "budget": J.budget(tier, 30, 300), "oracles": [], "events_dep": False, "force_all": -1, "race": True,
                                                "args": {"comp": comp, "lens": lens, "buf": "1"}}, 1))
-        return {"level": "model_checking", "race": True, "stages": [lambda ctx, prev: jobs],
+        return {"level": "model_checking", "race": True, "rev_map_order": ("C12-g7-i1", "C12-g8-i1", "C12-g5-i2", "C12-runto-g8-p"), "stages": [lambda ctx, prev: jobs],
                 "rule": "race-instrumented build (every map operation and every access to a struct field that is assigned after construction is a visible memory access): fan-out, fan-in, multi-core, tagging, join, streaming and combinator scenarios under every Mazurkiewicz trace (delay bound where not closed); vector-clock happens-before monitor built from synchronisation edges only (spawn, send->recv, k-th recv -> (k+cap)-th send, close -> recv-closed, unlock -> lock, Done -> Wait): two conflicting accesses not ordered by it in ANY explored execution = data race, reported with both functions",
                 "assumptions": J.BASE_ASSUMPTIONS + ["instrumented accesses: maps, mutable struct fields reached through a pointer-typed identifier, package-level variables assigned in a function body (checked against happens-before without being scheduling points); slice elements and right operands of && / || are not instrumented", "accesses in loop conditions are not instrumented"]}
